@@ -45,3 +45,31 @@ lemma("a_buffer_without_newline_is_still_inside_the_length_prefix", [("b", BYTES
 include("_p3_targets.py")
 
 undecided("the pipe medium's read loop (_serve_one_request_unguarded) and the chunked body decoder: not under contract in this build")
+
+# ---- the client side: ConventionalResponseHandler._read_more asks the medium for exactly what the decoder says it still needs - never
+#      more - and stops reading once the decoder reports the end of the message
+NextSize = ufunc("NextSize", INT)
+CRH = cls("ConventionalResponseHandler", fields={"finished_reading": BOOL, "_protocol_decoder": ANY, "_medium_request": ANY})
+exceptions(ConnectionResetError="Exception")
+assumed("self._protocol_decoder.next_read_size", pure=True, returns=lambda c: NextSize(), raises={"Exception": None},
+        note="ProtocolThreeDecoder.next_read_size, under contract above")
+assumed("self._medium_request.finished_reading", result=NONE, raises={"Exception": "unchanged"})
+assumed("self._medium_request.read_bytes", result=BYTES, raises={"Exception": "unchanged"},
+        requires=lambda c: And(c.args[0] == NextSize(), NextSize() != 0),
+        note="reads AT MOST the requested number of bytes from the connection (medium: not under contract)")
+assumed("self._protocol_decoder.accept_bytes", result=NONE, raises={"Exception": "unchanged"})
+assumed("debug.debug_flag_enabled", pure=True, no_raise=True, result=BOOL)
+assumed(rx(r"_get_in_buffer\(\)"), pure=True, no_raise=True)
+pure("mutter")
+target("breezy/bzr/smart/message.py::ConventionalResponseHandler._read_more", locals=dict(data=BYTES, next_read_size=INT),
+       modifies=["self.finished_reading"],
+       ensures={"reads_exactly_what_the_decoder_asked_for_or_stops": lambda c: If(
+           NextSize() == 0,
+           And(c.self.finished_reading, lift(c.calls("self._medium_request.read_bytes") == 0 and c.calls("self._medium_request.finished_reading") == 1)),
+           And(c.self.finished_reading == c.old.self.finished_reading, (Len(c.data) > 0) if c.has("data") else FALSE,      # (an empty read is the end of the connection: refused)
+               lift(c.calls("self._medium_request.read_bytes") == 1 and c.calls("self._protocol_decoder.accept_bytes") == 1)))},
+       raises={"ConnectionResetError": lambda c: lift(c.calls("self._medium_request.read_bytes") == 1 and c.calls("self._protocol_decoder.accept_bytes") == 0),
+               "Exception": True},
+       canary=lambda c: c.self.finished_reading,
+       equivalent_mutants={r"debug_flag_enabled|mutter": "debug tracing"},
+       note="the client never asks the connection for more than the decoder's hint")
